@@ -6,7 +6,9 @@ child, and prints one observation per scenario.
 
 scenario = {
   'id': any, 'src': str, 'trace_modules': bool, 'trace_threads': bool,
-  'delay': {'every': n, 'seconds': s} | None,   # the Recorder's hook sleeps s seconds at every n-th event
+  'delay': {'every': n, 'seconds': s}           # the Recorder's handler sleeps s seconds at every n-th event
+         | {'types': [...], 'seconds': s}       # ... at every event of these types (e.g. OnEndTrace = the LAST relayed event)
+         | {..., 'gate': T} | None,             # instead of sleeping: HELD until on_end_run has been called, at most T seconds
   'start_delay': seconds | None,                # the Recorder's on_start_run sleeps (slow user plugin)
   'hog': seconds | None,                        # a task blocks the event loop for `hog` s in every iteration
   'kill': {'how': 'kill'|'terminate'|'interrupt', 'at_event': k} | None,   # requested from the hook of the k-th event
@@ -70,6 +72,7 @@ def make_recorder(scn: dict, obs: dict, nl_ref: dict):
 
         @hookimpl
         async def on_end_run(self, context):
+            state['ended'] = True
             log.append(['end_run'])
 
     async def on_event(hook, event):
@@ -84,8 +87,14 @@ def make_recorder(scn: dict, obs: dict, nl_ref: dict):
                 except BaseException as e:
                     log.append(['kill_req', kill['how'], repr(e)])
             asyncio.ensure_future(req())
-        if delay and i % delay['every'] == 0:
-            await asyncio.sleep(delay['seconds'])
+        if delay and ((delay.get('every') and i % delay['every'] == 0) or type(event).__name__ in (delay.get('types') or [])):
+            if delay.get('gate'):
+                t_end = time.time() + float(delay['gate'])
+                while not state.get('ended') and time.time() < t_end:
+                    await asyncio.sleep(0.005)
+                log.append(['gate', i, 'end_run_seen' if state.get('ended') else 'timeout'])
+            else:
+                await asyncio.sleep(delay['seconds'])
         log.append(['ev_done', i])
 
     def mk(hook):
